@@ -18,6 +18,7 @@ strategies, and records snapshots.
 """
 import contextlib
 import datetime as _dt
+import json
 import os
 import shutil
 import tempfile
@@ -155,6 +156,10 @@ def make_strategy_class():
             f = self.fault
             if f and f["cb"] == cb and f["n"] == n:
                 self.lab.fault_fired = True
+                if f.get("in_real_time"):
+                    # the strategy's own code fails while it looks at the real clock through the documented helper
+                    with self.lab.fw.simulated_datetime.real_time():
+                        raise RuntimeError("injected inside real_time()")
                 if f.get("exc") == "flumine":
                     raise FlumineException("injected")
                 raise RuntimeError("injected")
@@ -421,6 +426,20 @@ class Lab:
                 p, r = world.write_market(m, self.tmpdir)
                 self.paths.append(p)
                 self.renderers.append(r)
+        if scenario.get("combined_file") and not stepped and len(self.market_specs) > 1:
+            # one recording holding all the markets (an event-level file): messages of the same publish time are
+            # merged into one message with several market changes, the rest interleaved chronologically
+            msgs = {}
+            for r in self.renderers:
+                for line in r.lines:
+                    d = json.loads(line)
+                    msgs.setdefault(d["pt"], []).append(d)
+            path = os.path.join(self.tmpdir, "1.999999999")
+            with open(path, "w") as f:
+                for n_, pt in enumerate(sorted(msgs)):
+                    ds = msgs[pt]
+                    f.write(json.dumps({"op": "mcm", "clk": str(n_), "pt": pt, "mc": [mc for d in ds for mc in d["mc"]]}) + "\n")
+            self.paths = [path]
 
         self.clients = []
         for i, c in enumerate(scenario.get("clients") or [{}]):
@@ -466,7 +485,7 @@ class Lab:
         self.strategies = []
         for s in scenario.get("strategies", []):
             ms = s.get("markets")
-            paths = [self.paths[i] for i in (ms if ms is not None else range(len(self.paths)))]
+            paths = [self.paths[i] for i in (ms if ms is not None else range(len(self.paths)))] if len(self.paths) == len(self.market_specs) else list(self.paths)
             mf = {"markets": paths}
             if scenario.get("event_processing"):
                 mf["event_processing"] = True
